@@ -115,6 +115,21 @@ def _parse(pattern, flags=0):
     return P.parse(pattern, flags)
 
 
+class _View:
+    """a sequence seen by the simulation: get(p) is the element or None outside; remembers how far it looked"""
+    __slots__ = ("d", "n", "lo", "hi")
+
+    def __init__(self, d):
+        self.d, self.n, self.lo, self.hi = d, len(d), None, None
+
+    def get(self, p):
+        if self.lo is None or p < self.lo:
+            self.lo = p
+        if self.hi is None or p > self.hi:
+            self.hi = p
+        return self.d[p] if 0 <= p < self.n else None
+
+
 class _Rx:
     """a compiled ``re`` pattern (or pattern text) as its sre parse tree; ``is_bytes`` selects the
     ASCII character categories of bytes patterns (str patterns: the harnesses bound characters to
@@ -181,23 +196,24 @@ class _Rx:
             return _not(r) if neg else r
         S._unsupported("regex model: %s" % name)
 
-    def at(self, code, data, p):
-        n = len(data)
+    def at(self, code, v, p):
         code = str(code)
         if code == "AT_BEGINNING":
-            if p == 0:
+            prev = v.get(p - 1)
+            if prev is None:
                 return True
-            return _eq(data[p - 1], 10) if self.multiline else False
+            return _eq(prev, 10) if self.multiline else False
         if code == "AT_BEGINNING_STRING":
-            return p == 0
+            return v.get(p - 1) is None
         if code == "AT_END":
-            if p == n:
+            here = v.get(p)
+            if here is None:
                 return True
             if self.multiline:
-                return _eq(data[p], 10)
-            return _eq(data[p], 10) if p == n - 1 else False
+                return _eq(here, 10)
+            return _eq(here, 10) if v.get(p + 1) is None else False
         if code == "AT_END_STRING":
-            return p == n
+            return v.get(p) is None
         S._unsupported("regex model: anchor %s" % code)
 
     # ---- position-set simulation: {end position: condition} -----------------------------------
@@ -208,25 +224,36 @@ class _Rx:
     def ends(self, data, starts, items=None, data_key=None):
         """starts: {pos: cond}.  Returns {pos: cond}: the pattern (sequence ``items``) can match
         data[s:pos] for a start s with cond(s).  Boolean acceptance only (no priorities).
-        Top-level calls from a single unconditional start are cached across paths (z3 constants of
-        equal name are the same term, so the formula of an equal sequence is the same formula)."""
-        key = None
-        if items is None and len(starts) == 1 and next(iter(starts.values())) is True:
-            key = (self.text, self.flags, next(iter(starts)), data_key if data_key is not None else self.seq_key(data))
-            hit = _ENDS_CACHE.get(key)
+        Top-level calls from a single unconditional start are cached across paths, keyed by the elements
+        the simulation actually looked at (z3 constants of equal name are the same term, so the formula
+        over an equal window is the same formula)."""
+        if not (items is None and len(starts) == 1 and next(iter(starts.values())) is True):
+            return self._ends(_View(data), starts, self.items if items is None else items)
+        i = next(iter(starts))
+        dk = data_key if data_key is not None else self.seq_key(data)
+        n = len(data)
+        bucket = _ENDS_CACHE.setdefault((self.text, self.flags), ({}, set()))
+        for lo, hi in bucket[1]:
+            key = (lo, hi, tuple(dk[q] if 0 <= q < n else None for q in range(i + lo, i + hi + 1)))
+            hit = bucket[0].get(key)
             if hit is not None:
-                return dict(hit[0])
-        out = self._ends(data, starts, self.items if items is None else items)
-        if key is not None:
-            if len(_ENDS_CACHE) > 20000:
-                _ENDS_CACHE.clear()
-            _ENDS_CACHE[key] = (dict(out), list(data))      # keeps the terms (and their ids) alive
+                return {i + r: c for r, c in hit[0].items()}
+        v = _View(data)
+        out = self._ends(v, starts, self.items)
+        lo, hi = (0, -1) if v.lo is None else (v.lo - i, v.hi - i)
+        key = (lo, hi, tuple(dk[q] if 0 <= q < n else None for q in range(i + lo, i + hi + 1)))
+        if len(bucket[0]) > 50000:
+            bucket[0].clear()
+            bucket[1].clear()
+        bucket[1].add((lo, hi))
+        bucket[0][key] = ({e - i: c for e, c in out.items()}, list(data[max(0, i + lo):i + hi + 1]))   # keeps terms alive
         return out
 
     def _single(self, sub):
         return len(sub) == 1 and str(sub[0][0]) in ("LITERAL", "NOT_LITERAL", "ANY", "IN")
 
-    def _ends(self, data, starts, items):
+    def _ends(self, v, starts, items):
+        from re._constants import MAXREPEAT
         cur = dict(starts)
         for op, av in items:
             name = str(op)
@@ -238,32 +265,44 @@ class _Rx:
                 nxt[p] = _or(nxt[p], c) if p in nxt else c
             if name in ("LITERAL", "NOT_LITERAL", "ANY", "IN"):
                 for p, c in cur.items():
-                    if p < len(data):
-                        put(p + 1, _and(c, self.test(op, av, data[p])))
+                    e = v.get(p)
+                    if e is not None:
+                        put(p + 1, _and(c, self.test(op, av, e)))
             elif name == "AT":
                 for p, c in cur.items():
-                    put(p, _and(c, self.at(av, data, p)))
+                    put(p, _and(c, self.at(av, v, p)))
             elif name == "SUBPATTERN":
-                for p, c in self._ends(data, cur, av[3]).items():
+                for p, c in self._ends(v, cur, av[3]).items():
                     put(p, c)
             elif name == "BRANCH":
                 for alt in av[1]:
-                    for p, c in self._ends(data, cur, alt).items():
+                    for p, c in self._ends(v, cur, alt).items():
                         put(p, c)
             elif name in ("MAX_REPEAT", "MIN_REPEAT"):
                 lo, hi, sub = av
-                if lo <= 1 and hi >= len(data) and self._single(sub) and cur:
+                if lo <= 1 and hi >= MAXREPEAT and self._single(sub) and cur:
                     # x* / x+ of a single character test: linear closure
                     sop, sav = sub[0]
                     reach = False
-                    for p in range(min(cur), len(data) + 1):
-                        # reach = "some start <= p is connected to p by matching characters"
+                    p, last_start = min(cur), max(cur)
+                    while True:
+                        # reach = "some start < p is connected to p by matching characters"
                         here = _or(cur.get(p, False), reach)
                         if lo == 0:
                             put(p, here)
                         elif reach is not False:
                             put(p, reach)
-                        reach = _and(here, self.test(sop, sav, data[p])) if p < len(data) else False
+                        if here is False:
+                            if p >= last_start:
+                                break
+                            reach = False
+                            p += 1
+                            continue
+                        e = v.get(p)
+                        if e is None:
+                            break
+                        reach = _and(here, self.test(sop, sav, e))
+                        p += 1
                     cur = nxt
                     if not cur:
                         break
@@ -273,8 +312,8 @@ class _Rx:
                         put(p, c)
                 step = cur
                 t = 0
-                while step and t < hi and t <= len(data) + 1:
-                    step = self._ends(data, step, sub)
+                while step and t < hi and t <= v.n + 1:
+                    step = self._ends(v, step, sub)
                     t += 1
                     if t >= lo:
                         for p, c in step.items():
@@ -288,12 +327,14 @@ class _Rx:
 
     # ---- backtracking interpreter (re's own priorities; character tests fork) -----------------
     def _bt(self, data, items, idx, pos, groups, cont):
+        """data: a _View"""
         if idx == len(items):
             return cont(pos, groups)
         op, av = items[idx]
         name = str(op)
         if name in ("LITERAL", "NOT_LITERAL", "ANY", "IN"):
-            if pos < len(data) and _truth(self.test(op, av, data[pos])):
+            e = data.get(pos)
+            if e is not None and _truth(self.test(op, av, e)):
                 return self._bt(data, items, idx + 1, pos + 1, groups, cont)
             return None
         if name == "AT":
@@ -341,8 +382,9 @@ class _Rx:
 
     def search_bt(self, data, start=0):
         """leftmost match with re's priorities: (start, end, groups) or None"""
+        v = _View(data)
         for i in range(start, len(data) + 1):
-            r = self._bt(data, self.items, 0, i, {}, lambda p, gs: (p, gs))
+            r = self._bt(v, self.items, 0, i, {}, lambda p, gs: (p, gs))
             if r is not None:
                 return i, r[0], r[1]
         return None
@@ -424,9 +466,49 @@ def _lines(ctx, lens, last_open=False, inner_cr=True):
     return data, spans
 
 
+SAMPLE_LINES = [b"From a@b.c Thu Jan  1 00:00:00 1970\n", b"From MAILER-DAEMON Fri Jan  2 03:04:05 2015\r\n",
+                b">From a@b.c Thu Jan  1 00:00:00 1970\n", b"From: a@b.c\n", b"From a 2024\n", b"From 12024\n", b"From  2024\n",
+                b"From a@b.c Thu Jan  1 00:00:00 1970 \n", b"From a@b.c Thu Jan  1 00:00:00 1970 +0100\n", b"from a 2024\n",
+                b"xFrom a 2024\n", b"From a 2024", b"\n", b"", b"From a\t2024\r\r\n", b"From a 20245\n", b"From a 202\n",
+                b"body\nFrom a 2024\nmore\n", b"body\r\nFrom a 2024\r\n", b"body\rFrom a 2024\n", b"From a\x0b2024\n"]
+
+
+def _translator_validation(ctx):
+    """the formula model evaluated on concrete bytes (all conditions are python bools then) must agree with re
+    itself: sample lines, every separator line of the repository's own mbox fixtures, both patterns"""
+    import glob
+    m = _mbox()
+    samples = list(SAMPLE_LINES)
+    for f in sorted(glob.glob(S.REPO + "/sharepoint2text/tests/resources/**/*.mbox", recursive=True))[:4]:
+        raw = open(f, "rb").read()[:4000]
+        samples.append(raw[:600])
+        samples += [ln + b"\n" for ln in raw.split(b"\n")[:40] if ln.startswith(b"From")]
+    n_checked = 0
+    for pat in (m.MBOX_FROM_PATTERN, re.compile(WF_SEPARATOR)):
+        rx = _Rx(pat)
+        for raw in samples:
+            data = list(raw)
+            for i in range(len(data) + 1):
+                model = sorted(j for j, c in rx.ends(data, {i: True}).items() if c is True)
+                mt = pat.match(raw, i)
+                real = [] if mt is None else [mt.end()]
+                if ctx.perturb == "translator_off_by_one":
+                    real = [j + 1 for j in real]
+                ctx.require(model == real, "regex-model-differs-from-re", pattern=repr(pat.pattern)[:40], data=repr(raw)[:60],
+                            start=i, model=model, real=real)
+                bt = rx.search_bt(data, i)
+                sr = pat.search(raw, i)
+                ctx.require((bt is None) == (sr is None) and (bt is None or (bt[0], bt[1]) == sr.span()),
+                            "backtracking-model-differs-from-re", pattern=repr(pat.pattern)[:40], data=repr(raw)[:60], start=i)
+                n_checked += 1
+    ctx.require(n_checked > 100, "translator-validation-empty")
+
+
 def k1a_language(ctx):
     """facts about the live pattern on a window of lines, every content byte symbolic"""
     m = _mbox()
+    if ctx.params.get("samples"):
+        return _translator_validation(ctx)
     lens = ctx.params["lens"]
     data, spans = _lines(ctx, lens)
     n = len(data)
@@ -501,7 +583,7 @@ def _k1a_parts(tier):
     else:
         windows = [[n] for n in range(0, 20)] + [[a, b] for a in (0, 3, 11, 12) for b in (0, 3, 11, 12, 13)] + \
                   [[n] for n in range(WF_MIN - 1, WF_MIN + 8)] + [[WF_MIN + 1, WF_MIN + 2], [11, 2, 12]]
-    return [{"lens": w} for w in windows]
+    return [{"lens": w} for w in windows] + [{"samples": True}]
 
 
 class _MBytes:
@@ -1059,9 +1141,36 @@ def _sym_name(ctx, tag, n, quoted, display_to):
     return nm
 
 
+RECIPIENT_SAMPLES = ["John Doe <john@example.com>", "<admin@example.com>", "user@example.com", "John Doe", "", "  ",
+                     "A <a@x.com>; B <b@x.com>", "user1@x.com, user2@x.com", '"Doe, John" <j@x.y>', "'Jo' <j@x.y> ",
+                     "a <b> c", "a <b>> ", "<<a>", "x@y z", "a,;b", "Doe, John; Roe, Jane", 'q"uo"te <a@b>']
+
+
+def _k3r_translator_validation(ctx, msg):
+    """lifted functions + regex interpreter on concrete strings == the real functions"""
+    from vf import lift
+    ctx.decision_memo = {}
+    model = _ReModel()
+    single = lift.lift(msg._parse_single_recipient, re=model)
+    multi = lift.lift(msg._parse_multi_recipients, re=model, _parse_single_recipient=single)
+    pairs = lambda rs: [(str(r.name), str(r.address)) for r in rs]
+    n = 0
+    for raw in RECIPIENT_SAMPLES + [RECIPIENT_SAMPLES[:3]]:
+        real = pairs(msg._parse_multi_recipients(raw))
+        arg = [S.CharStr(x) for x in raw] if isinstance(raw, list) else S.CharStr(raw)
+        got = pairs(multi(arg)) if not ctx.concrete else real
+        if ctx.perturb == "translator_drops_last":
+            got = got[:-1]
+        ctx.require(got == real, "lifted-recipient-parser-differs-from-the-real-one", raw=raw, lifted=got, real=real)
+        n += 1
+    ctx.require(n > 10, "translator-validation-empty")
+
+
 def k3r_recipients(ctx):
     msg = _msg()
     from vf import lift
+    if ctx.params.get("samples"):
+        return _k3r_translator_validation(ctx, msg)
     mode = ctx.params["mode"]
     lens = ctx.params["name_lens"]
     n_box = 1 + ctx.choice("mailboxes_minus_1", ctx.params.get("max_boxes", 2))
@@ -1147,7 +1256,7 @@ def _k3r_parts(tier):
                   {"mode": md, "name_lens": [3], "max_boxes": 1}]
         if tier != "quick":
             parts += [{"mode": md, "name_lens": [3], "max_boxes": 2}, {"mode": md, "name_lens": [4], "max_boxes": 1}]
-    return parts
+    return parts + [{"samples": True}]
 
 
 def _k3r_targets():
@@ -1665,7 +1774,7 @@ KERNELS = [
     Kernel("K1a", "separator language of the live MBOX_FROM_PATTERN: a match is one whole line starting at a line "
                   "start with 'From ', never an escaped '>From ' line; every RFC 4155 separator line is matched",
            k1a_language, engine="E3", targets=_k1_targets, parts=_k1a_parts,
-           perturb=[("colon_separator", {"lens": [12]})], symbolic=_K1_SYMBOLIC,
+           perturb=[("colon_separator", {"lens": [12]}), ("translator_off_by_one", {"samples": True})], symbolic=_K1_SYMBOLIC,
            assumptions=["translation of the pattern's sre parse tree into a formula per (start, end) by position-set "
                         "simulation; validated on every replayed model against re itself",
                         "RFC 4155 separator line: 'From ' addr-spec (printable ASCII, no quoted local part) ' ' ctime() "
@@ -1691,7 +1800,8 @@ KERNELS = [
     _K2,
     Kernel("K3r", "MSG recipient strings: one EmailAddress per mailbox, display name and address kept",
            k3r_recipients, targets=_k3r_targets, parts=_k3r_parts,
-           perturb=[("expect_quotes_kept", {"mode": "header", "name_lens": [1], "max_boxes": 1})],
+           perturb=[("expect_quotes_kept", {"mode": "header", "name_lens": [1], "max_boxes": 1}),
+                    ("translator_drops_last", {"samples": True})],
            symbolic=["every character of every display name (printable ASCII, length <= 3, thorough 4)"],
            choices=["1 or 2 mailboxes", "form of each: name <addr>, \"name\" <addr>, <addr>, addr", "header string / list "
                     "of strings / PidTagDisplayTo name list"],
